@@ -169,7 +169,7 @@ Proof.
   - rewrite Hcg. unfold cost_total. destruct (Qnum (aq a) <? 0)%Z; cbn [amt_neg with_keep acomm]; exact Hct.
 Qed.
 
-(* print fails exactly when a per-unit cost sits on a zero amount (finding F23) *)
+(* print fails exactly when a per-unit cost sits on a zero amount (finding F28) *)
 Lemma per_unit_on_zero_fails cp g a : aq a == 0 -> amt_div cp g a = Err EDivZero.
 Proof.
   intros H. unfold amt_div. apply is_realzero_spec in H. rewrite H. reflexivity.
@@ -463,7 +463,7 @@ Proof. unfold mark_of, read_state. destruct (e_state e); reflexivity. Qed.
 Lemma mark_roundtrip_same xs e : e_state e = xs -> read_state xs (mark_of xs e) = e_state e.
 Proof. intros <-. unfold mark_of, read_state. destruct (e_state e); reflexivity. Qed.
 
-(* finding F22: under a cleared transaction a pending posting comes back cleared *)
+(* finding F27: under a cleared transaction a pending posting comes back cleared *)
 Lemma mark_lost_refuted : exists xs e, read_state xs (mark_of xs e) <> e_state e.
 Proof. exists SCleared, (no_extra SPending). discriminate. Qed.
 
